@@ -624,7 +624,12 @@ def symbolic_histories(R, rng, tier):
             R_, v_, w_ = build(A)
             out = []
             for label, f in (('R * ~R', lambda: R_ * ~R_), ('R.normsq()', lambda: R_.normsq()), ('(v + w) - (w + v)', lambda: (v_ + w_) - (w_ + v_)),
-                             ('(v*w) - (v|w) - (v^w)', lambda: (v_ * w_) - (v_ | w_) - (v_ ^ w_)), ('R >> v', lambda: R_ >> v_), ('v ^ v', lambda: v_ ^ v_)):
+                             ('(v*w) - (v|w) - (v^w)', lambda: (v_ * w_) - (v_ | w_) - (v_ ^ w_)), ('R >> v', lambda: R_ >> v_), ('v ^ v', lambda: v_ ^ v_),
+                             # numeric operands holding whole grades (their key tuples are the shared tuples of the algebra)
+                             ('~bivector(1..)', lambda: ~A.bivector([float(i_ + 1) for i_ in range(len(A.indices_for_grades[(2,)]))])),
+                             ('-vector(1..)', lambda: -A.vector([float(i_ + 1) for i_ in range(A.d)])),
+                             ('bivector(1..).conjugate()', lambda: A.bivector([float(i_ + 2) for i_ in range(len(A.indices_for_grades[(2,)]))]).conjugate()),
+                             ('vector(1..).involute()', lambda: A.vector([float(i_ + 2) for i_ in range(A.d)]).involute())):
                 try:
                     r_ = f()
                     out.append((label, ('ok', tuple(int(k_) for k_ in r_.keys()), tuple(sympy.srepr(sympy.sympify(x_)) for x_ in r_.values()))))
@@ -635,7 +640,7 @@ def symbolic_histories(R, rng, tier):
         canon = list(used.canon2bin.values())
         events = []
         for _ in range(rng.randint(2, 4)):
-            ev = rng.choice(['failing-polarity', 'failing-division', 'numeric-product', 'failing-registered', 'numeric-inverse'])
+            ev = rng.choice(['failing-polarity', 'failing-division', 'numeric-product', 'failing-registered', 'numeric-inverse', 'symbolic-unary-partly-zero', 'symbolic-unary-partly-zero'])
             events.append(ev)
             x = oc.make_mv(used, rng.sample(canon, 2), [2.0, 3.0])
             try:
@@ -643,6 +648,13 @@ def symbolic_histories(R, rng, tier):
                 elif ev == 'failing-division': x / oc.make_mv(used, [1], [1.0])
                 elif ev == 'numeric-product': x * x
                 elif ev == 'numeric-inverse': oc.make_mv(used, [0, 3], [2.0, 1.0]).inv()
+                elif ev == 'symbolic-unary-partly-zero':
+                    sa_, sb_ = sympy.symbols('p q')
+                    nb_ = len(used.indices_for_grades[(2,)])
+                    Bz = used.bivector([sa_] + [0] * (nb_ - 1)) if nb_ > 1 else used.bivector([sa_])
+                    vz = used.vector([0] * (used.d - 1) + [sb_])
+                    for u_ in (Bz, vz):
+                        ~u_; -u_; u_.conjugate(); u_.involute()
                 else:
                     def boom(u): raise ValueError('user function fails while it is recorded')
                     used.register(symbolic=True)(boom)(x)
